@@ -187,6 +187,24 @@ def run_group(group, out):
                         % (impl, group['compression'], group['threshold'], j2, ae, text),
                         {'impl': impl, 'compression': group['compression'], 'threshold': group['threshold'],
                          'case': [[], j2, ae]}, weight=(0, 0)))
+        # refusals pass the same compression step: a sequence of failing POSTs (each on a session of its own) with and
+        # without compression on offer - each 400 decodes, by its own headers, to the refusal text
+        for ae in ('gzip', None, 'deflate', 'gzip'):
+            sid3 = peer.sid_of(peer.open_polling(w))
+            if sid3 is None:
+                break
+            hdr = {} if ae is None else {'Accept-Encoding': ae}
+            bad = peer.post(w, sid3, '9', headers=hdr)
+            n += 1
+            if bad.done and not bad.exc and bad.status != 400:
+                continue        # (whether it is refused is C04's business)
+            for kind, text in judge_ack(bad, ae, group['compression'], group['threshold'], b'"Bad Request"'):
+                out.append(report.Violation(
+                    {'impl': impl, 'kind': kind, 'trigger': 'encoding_refusal'},
+                    '[%s compression=%s threshold=%d AE=%r refusal of a POST with an undefined packet type, in a sequence of such refusals] %s'
+                    % (impl, group['compression'], group['threshold'], ae, text),
+                    {'impl': impl, 'compression': group['compression'], 'threshold': group['threshold'],
+                     'case': [[], None, ae]}, weight=(0, 0)))
     finally:
         w.teardown()
     return n
